@@ -215,7 +215,7 @@ func c04Unit(scheme string, n int) core.Unit {
 					return
 				}
 			}
-			if n == 1 && pi == 0 {
+			if n == 1 {
 				// star
 				for _, probe := range pool {
 					got, err := vers.Contains("vers:"+scheme+"/*", probe)
